@@ -187,3 +187,6 @@ func Races() int                { return 0 }
 func RaceDesc() string          { return "" }
 func UnlockedWrites() int       { return 0 }
 func UnlockedWriteDesc() string { return "" }
+
+// PongsIgnored (engine-only): connections on which a pong arrived without a read-deadline renewal afterwards.
+func PongsIgnored() int { return 0 }
